@@ -292,7 +292,7 @@ def gen_history(rng, case, nops, allow=("commit", "checkout", "status", "push", 
     return case
 
 
-def pipeline_project(rng, cid, n, cyclic=False, tier="quick", all_edges=None, sink=False, lossy=0.0):
+def pipeline_project(rng, cid, n, cyclic=False, tier="quick", all_edges=None, sink=False, lossy=0.0, dir_sources=0.0):
     """n stages with vcmd commands; edges j->i (i consumes an output of j). Returns the case and the
     edge list. Outputs: file out/o<i>.txt or directory out/d<i> (vcmd writes f and sub/g into it)."""
     init = []
@@ -344,7 +344,7 @@ def pipeline_project(rng, cid, n, cyclic=False, tier="quick", all_edges=None, si
                 ins.append((outpath[j], ""))
                 args_in.append(outpath[j])
         has_src = rng.random() < 0.6 or not ins
-        shared_src = [e for e in init if e[0] == "file" and e[1].startswith(b"src/")]
+        shared_src = [e for e in init if e[0] == "file" and e[1].startswith(b"src/") and not e[1].startswith(b"src/dir")]
         if has_src and shared_src and rng.random() < 0.3:
             # several stages read the same plain file
             sp = rng.choice(shared_src)[1]
@@ -359,6 +359,12 @@ def pipeline_project(rng, cid, n, cyclic=False, tier="quick", all_edges=None, si
             init.append(("file", sp, "g:%d:%d" % (rng.randrange(1000), rng.choice([0, 3, 40, 70000] if tier == "thorough" else [0, 3, 40]))))
             ins.append((sp, ""))
             args_in.append(sp)
+        if dir_sources and rng.random() < dir_sources:
+            # a plain DIRECTORY input (owned by no stage)
+            dp = b"src/dir%d" % i
+            init += [("dir", dp), ("file", dp + b"/one.txt", "g:%d:9" % rng.randrange(1000)), ("file", dp + b"/two.txt", "g:%d:40" % rng.randrange(1000))]
+            ins.append((dp, "d"))
+            args_in.append(dp)
         # de-duplicate inputs by path
         seen = set()
         ins = [x for x in ins if not (x[0] in seen or seen.add(x[0]))]
